@@ -834,7 +834,7 @@ pub fn parse(s: &str) -> Option<(&str, i32, Unit)> {
                 break;
             }
             Combined::Tera => {
-                if lexer.remainder().is_empty() {
+                if lexer.remainder().is_empty() && lexer.slice() == "T" {
                     return Some(("", prefix, Unit::Derived(units::TESLA)));
                 }
 
@@ -846,7 +846,7 @@ pub fn parse(s: &str) -> Option<(&str, i32, Unit)> {
                 break;
             }
             Combined::Mega => {
-                if lexer.remainder().is_empty() {
+                if lexer.remainder().is_empty() && lexer.slice() == "M" {
                     return Some(("", prefix, Unit::Derived(units::time::MILLENIUM)));
                 }
 
@@ -858,7 +858,7 @@ pub fn parse(s: &str) -> Option<(&str, i32, Unit)> {
                 break;
             }
             Combined::Hecto => {
-                if lexer.remainder().is_empty() {
+                if lexer.remainder().is_empty() && lexer.slice() == "h" {
                     return Some(("", prefix, Unit::Derived(units::time::HOUR)));
                 }
 
@@ -874,7 +874,7 @@ pub fn parse(s: &str) -> Option<(&str, i32, Unit)> {
                 break;
             }
             Combined::Centi => {
-                if lexer.remainder().is_empty() {
+                if lexer.remainder().is_empty() && lexer.slice() == "c" {
                     return Some(("", prefix, Unit::Derived(units::velocity::LIGHT_SPEED)));
                 }
 
@@ -882,7 +882,7 @@ pub fn parse(s: &str) -> Option<(&str, i32, Unit)> {
                 break;
             }
             Combined::Milli => {
-                if lexer.remainder().is_empty() {
+                if lexer.remainder().is_empty() && lexer.slice() == "m" {
                     return Some(("", prefix, Unit::Meter));
                 }
 
@@ -906,7 +906,7 @@ pub fn parse(s: &str) -> Option<(&str, i32, Unit)> {
                 break;
             }
             Combined::Atto => {
-                if lexer.remainder().is_empty() {
+                if lexer.remainder().is_empty() && lexer.slice() == "a" {
                     return Some(("", prefix, Unit::Derived(units::ACCELERATION)));
                 }
 
@@ -918,7 +918,7 @@ pub fn parse(s: &str) -> Option<(&str, i32, Unit)> {
                 break;
             }
             Combined::Yocto => {
-                if lexer.remainder().is_empty() {
+                if lexer.remainder().is_empty() && lexer.slice() == "y" {
                     return Some(("", prefix, Unit::Derived(units::time::YEAR)));
                 }
 
